@@ -34,10 +34,15 @@ def fsc_landscape(
                 sigma0 = backend.sqrt(
                     backend.sum_labels(pw0, labels=labels, index=index)
                 )
-                fsc = backend.sum_labels(cov, labels=labels, index=index) / (
-                    sigma0 * sigma1
+                # shells without power in either image (e.g. constant input) have no
+                # defined correlation and are excluded from the mean
+                denom = sigma0 * sigma1
+                valid = denom > 0
+                fsc = (
+                    backend.sum_labels(cov, labels=labels, index=index)[valid]
+                    / denom[valid]
                 )
-                out[iz, iy, ix] = float(fsc.mean())
+                out[iz, iy, ix] = float(fsc.mean()) if fsc.size > 0 else 0.0
     return out
 
 
